@@ -176,9 +176,14 @@ func execPath(s *PathScenario) (ms []core.Mismatch, skipped bool) {
 	den := float64(s.Den) / k
 	pt := func(v [2]int) oracle.Pt { return oracle.Pt{X: float64(v[0]) / den, Y: float64(v[1]) / den} }
 	size := 1.0
+	grow := func(v [2]int) { size = math.Max(size, math.Max(math.Abs(pt(v).X), math.Abs(pt(v).Y))) }
 	for _, c := range s.Img {
+		grow(c.S) // start points and way-points count as well (a contour may end near the origin)
 		for _, g := range c.Segs {
-			size = math.Max(size, math.Max(math.Abs(pt(g.P).X), math.Abs(pt(g.P).Y)))
+			grow(g.P)
+			for _, w := range g.Wp {
+				grow(w)
+			}
 		}
 	}
 	tol := 1e-9 * size
@@ -445,7 +450,11 @@ func execAlg(s *AlgScenario) (ms []core.Mismatch) {
 		scale = math.Max(scale, math.Abs(float64(v))/d)
 	}
 	// Det
-	if e := float64(s.DetNum) / (d * d); math.Abs(m.Det()-e) > 1e-9*(1+math.Abs(e)) {
+	// Tolerances follow the floating-point conditioning of the operation, not an absolute bound: Det is a difference of
+	// products of the order scale^2 (cancellation error ~ 1e-16 scale^2), Inv divides by it, and m.Mul(m.Inv()) is exact
+	// only up to the relative error of the computed determinant (every entry of Inv carries the factor 1/det) times the
+	// magnitude of the entries it multiplies. 1e-15 scale^2 is about ten times the observed cancellation error.
+	if e := float64(s.DetNum) / (d * d); math.Abs(m.Det()-e) > 1e-9*(1+math.Abs(e))+1e-15*scale*scale {
 		add("matrix:Det", fmt.Sprintf("Det = %v, expected %v", m.Det(), e))
 	}
 	// Dot
@@ -463,10 +472,16 @@ func execAlg(s *AlgScenario) (ms []core.Mismatch) {
 	// Inv
 	if s.Inv.D != 0 {
 		inv := m.Inv()
-		if ok, worst := rmatClose(inv, s.Inv, 1e-8); !ok {
+		e := math.Abs(float64(s.DetNum) / (d * d))
+		invScale := 1.0
+		for _, v := range s.Inv.N {
+			invScale = math.Max(invScale, math.Abs(float64(v))/float64(s.Inv.D))
+		}
+		relDet := 1e-15 * scale * scale / e // relative error of the computed determinant
+		if ok, worst := rmatClose(inv, s.Inv, 1e-8+relDet); !ok {
 			add("matrix:Inv", fmt.Sprintf("Inv() = %v, expected %v/%d (off by %.3g)", inv, s.Inv.N, s.Inv.D, worst))
 		}
-		if ok, _ := rmatClose(m.Mul(inv), RMat{N: [6]int{1, 0, 0, 0, 1, 0}, D: 1}, 1e-7); !ok {
+		if ok, _ := rmatClose(m.Mul(inv), RMat{N: [6]int{1, 0, 0, 0, 1, 0}, D: 1}, 1e-7+relDet*(1+scale)+1e-15*scale*invScale); !ok {
 			add("matrix:Inv-product", fmt.Sprintf("m.Mul(m.Inv()) = %v", m.Mul(inv)))
 		}
 	}
